@@ -341,11 +341,16 @@ func c14Check(tb ev.TB, rec *ev.Rec, dir string, c *c14Case, nload int, ambiguou
 		}
 		if again != first {
 			// key: the suspicious shapes present (sorted), or which stage differs when there is none
-			key := "order-dependent:" + c.Shapes[0]
-			if !ambiguous {
-				key = "order-dependent:no-ambiguous-shape"
+			key := "order-dependent-no-ambiguous-shape"
+			if ambiguous {
+				key = "order-dependent-" + c.Shapes[0]
 			}
 			w["load_1"], w["load_n"], w["n"] = first, again, n+1
+			if !rec.Known(key) {
+				// the code under test is what is nondeterministic here, so rapid may be unable to
+				// reproduce the failure while shrinking ("flaky test"); say it on stdout in any case
+				fmt.Printf("VIOLATION-CANDIDATE property=C14 key=%s: load #%d differs from load #1: %s\n", key, n+1, firstDiff(first, again))
+			}
 			rec.Fail(tb, key, w, "load #%d of the same files is interpreted differently from load #1: %s", n+1, firstDiff(first, again))
 			return
 		}
